@@ -762,6 +762,12 @@ func (g *c13Gen_) fileLeaf(t *c13Type) hx.JV {
 		p := w + "/" + name
 		g.fs = append(g.fs, c13Entry{'L', p, "nowhere_" + name})
 		return hx.JStr(p)
+	case c == 33 && g.r.Intn(3) == 0:
+		// a cycle of links (the Readlink loop of copyOutSymlink is bounded)
+		g.count("leaf_symlink_cycle")
+		p := w + "/" + name
+		g.fs = append(g.fs, c13Entry{'L', p, name + "_b"}, c13Entry{'L', p + "_b", "./" + name})
+		return hx.JStr(p)
 	case c == 33, c == 34:
 		g.count("leaf_outside_pipestance")
 		p := c13Root + "/ext/" + name
